@@ -1,6 +1,6 @@
 (* C16  The OS poller holds exactly the fds of enabled sources, nothing stale. *)
 From CV Require Import Base Consts Token PostAction Env Loop GenLife.
-From CVP Require Import Loop_frames Seq_lemmas Env_lemmas GenLife_proofs.
+From CVP Require Import Loop_frames Seq_lemmas Env_lemmas GenLife_proofs C16_owner.
 Import ListNotations.
 Open Scope N_scope.
 
@@ -54,6 +54,28 @@ Proof.
   - apply (released_fd_reinsertable ops o g gn g2 it m k Hg R Ho Hok Hne Hn).
 Qed.
 (* met by a real history: two Generics on fd 10 (the second registration fails), set + reregister, unwrap of a registered one *)
+(* NOTHING STALE, for whole loops, with no hypothesis (shared fds, failed and partial registrations, panics included): in every
+   state of every scenario - any commands, callbacks, removals, drops, dispatches, idles - every fd in the poller's table is owned by
+   a Generic (a sub-source of a composite, or the eventfd of a ping / channel source) of an object that still exists, and that
+   Generic has recorded the poller, so that its Drop or unwrap deletes the fd (C16_drop_clears). An fd can therefore not stay
+   registered after everything that could own it is gone. (`EPI`, proved for every function of the model in
+   coq/proofs/C16_owner.v; the converse - every enabled source's fd IS in the table - is false with shared fds and is decided by
+   comparing the kernel's table with the model.) *)
+Theorem C16_nothing_stale_in_any_reachable_state : forall scr bscr cmds fd,
+  has (en (run scr bscr cmds)) fd = true ->
+  exists o ob g, objs (run scr bscr cmds) o = Some ob /\ In g (gens_of (o_src ob)) /\ g_fd g = fd /\ g_poller g = true.
+Proof. exact nothing_stale. Qed.
+(* met by a real history: a composite over fds 10 and 11 and a ping source over fd 12 are inserted, the composite is removed while
+   the user keeps its Dispatcher, then dropped: before the drop fds 10, 11, 12 are registered... after remove + drop only fd 12 is *)
+Example C16_nothing_stale_nonvacuous :
+  let g k := mkGen k (mkInt true false) Level None false in
+  let pre := [CAct (AInsert 1 (SComp false None [g 10; g 11] None)); CAct (ANewPing 1 12); CAct (AInsert 2 (SPing (g 12)))] in
+  let a := run (fun _ => []) (fun _ => []) pre in
+  let b := run (fun _ => []) (fun _ => []) (pre ++ [CAct (ARemove 1); CAct (ADropDisp 1)]) in
+  (has (en a) 10, has (en a) 11, has (en a) 12) = (true, true, true) /\ (has (en b) 10, has (en b) 11, has (en b) 12) = (false, false, true) /\
+  objs b 1 = None.
+Proof. vm_compute. repeat split. Qed.
+
 Example C16_generic_nonvacuous :
   let it := mkInt true false in
   let ops := [GNew 1 10 it Level; GReg 1 2; GNew 2 10 (mkInt true true) Edge; GReg 2 0; GSet 1 (mkInt true true) OneShot; GRereg 1 5] in
